@@ -179,6 +179,7 @@ func (w *World) ApplyTx(raw []byte, res TxResult) TxOutcome {
 		w.Feat["ok_transfer"]++
 		if contractPath {
 			w.Feat["ok_transfer_to_contract"]++
+			w.afterTemplateCall(tx)
 		}
 	case ctypes.TRX_SETDOC:
 		if pl, ok := tx.Payload.(*ctypes.TrxPayloadSetDoc); ok {
@@ -316,6 +317,9 @@ func (w *World) applyUnstaking(tx *ctypes.Trx, hash []byte) {
 		}
 		w.delegDeletedThisBlock[ak(tx.To)] = true
 		w.Feat["delegatee_deleted"]++
+		if len(w.delegDeletedThisBlock) == 2 {
+			w.Feat["delegatees_deleted_same_block"]++
+		}
 	}
 	unb := 0
 	for range w.Unbonding {
@@ -449,12 +453,32 @@ func (w *World) applyContract(tx *ctypes.Trx, hash []byte, res TxResult) {
 		c.Nonce = 1
 		c.Code = hash
 		w.Contracts[ak(caddr[:])] = "deployed"
+		if pl, ok := tx.Payload.(*ctypes.TrxPayloadContract); ok && bytes.Equal(pl.Data, initCodeFor(suiciderRuntime)) {
+			w.Contracts[ak(caddr[:])] = "suicider"
+		}
 		w.Feat["ok_deploy"]++
 	} else {
 		rc := w.acct(tx.To)
 		rc.Bal.Add(rc.Bal, tx.Amount)
 		w.Feat["ok_call"]++
+		w.afterTemplateCall(tx)
 	}
+}
+
+// afterTemplateCall applies the known effect of the fixed contract templates beyond the value transfer:
+// the "suicider" (CALLER SELFDESTRUCT) pays its whole balance to the caller and ceases to exist.
+func (w *World) afterTemplateCall(tx *ctypes.Trx) {
+	k := ak(tx.To)
+	if w.Contracts[k] != "suicider" {
+		return
+	}
+	rc, snd := w.acct(tx.To), w.acct(tx.From)
+	snd.Bal.Add(snd.Bal, rc.Bal)
+	rc.Bal = u256(0)
+	delete(w.Contracts, k)
+	w.Dead[k] = true // retired: see known finding F10b (the native ledger keeps nonce and code marker)
+	w.Excluded["F10b:selfdestructed_contract_retired"]++
+	w.Feat["suicider_destroyed"]++
 }
 
 func isZero20(b []byte) bool {
